@@ -315,8 +315,9 @@ def run(ctx, report: Report) -> None:
     from .sem import helper_tables, match_selectors_table
     match_selectors_table(ctx, r5)
     helper_tables(ctx, r5)
-    from .sem import same_type_table
+    from .sem import root_table, same_type_table
     same_type_table(ctx, r5)
+    root_table(ctx, r5)
 
     r7 = report.rule('C01-R7', 'a comma resets every piece of per-alternative parser state (parsed token sequences)', floor=8)
     from .sem import comma_tables
